@@ -17,11 +17,15 @@ def optJson : Option Str → Json
   | some s => jstr s
   | none => Json.null
 
+/-- the answer for sources with a definition line outside the modelled inline-comment fragment -/
+def unmodelledJson : Json := Json.mkObj [("unmodelled", Json.bool true)]
+
 /-- op `doc.scan`: {mro: [{source, doc, params}], names: [..]} ↦ {docs: {name: Doc}} — compared
     with the real `get_attribute_docstring(cls, name)`. -/
 def opDocScan (c : Json) : R Json := do
   let mro ← (← arr c "mro").toList.mapM parseClassSrc
   let names ← strList c "names"
+  if !mro.all classModelled then return unmodelledJson
   return Json.mkObj [("docs", Json.mkObj (names.map (fun n => (n, docJson (attributeDoc mro (chars n))))))]
 
 /-- op `doc.help`: {mro, fields: [{name, custom, meta}]} ↦ {help: {name: str|null}} — compared
@@ -30,6 +34,7 @@ def opDocHelp (c : Json) : R Json := do
   let mro ← (← arr c "mro").toList.mapM parseClassSrc
   let fs ← (← arr c "fields").toList.mapM (fun f => do
     return (← str f "name", (← optStr f "custom").map chars, (← optStr f "meta").map chars))
+  if !mro.all classModelled then return unmodelledJson
   return Json.mkObj [("help", Json.mkObj (fs.map (fun (n, cu, me) =>
     (n, optJson (actionHelp cu me (attributeDoc mro (chars n)))))))]
 
@@ -39,6 +44,13 @@ def opDocLine (c : Json) : R Json := do
   let n := chars (← str c "name")
   return Json.mkObj [("def", Json.bool (containsFieldDef l)), ("defines", Json.bool (lineDefines l n)),
                      ("empty", Json.bool (isEmptyLine l)), ("comment", Json.bool (isComment l))]
+
+/-- op `doc.inline`: {line} ↦ {inline: text} | {unmodelled} — compared with the real
+    `_get_inline_comment_at_line([line], 0)` on definition lines. -/
+def opDocInline (c : Json) : R Json := do
+  let l := chars (← str c "line")
+  if !lineModelled l then return unmodelledJson
+  return Json.mkObj [("inline", jstr (inlineComment l))]
 
 def parseQuote : String → R Quote
   | "\"\"\"" => .ok .dq
@@ -74,6 +86,8 @@ def opDocLayout (c : Json) : R Json := do
   let hdr := (← strList c "header").map chars
   let blocks ← (← arr c "blocks").toList.mapM parseBlock
   let names := blocks.map (·.name)
+  if !(hdr ++ renderBlocks blocks).all (fun l => !containsFieldDef l || lineModelled l) then
+    return unmodelledJson
   -- the hypotheses of theorem `c19_extract` (header, well-formed blocks, pairwise distinct names)
   let inGrammar := headerOk hdr && blocks.all Block.wf && (SpVerif.dedup names).length == names.length
   return Json.mkObj [("lines", jstrs (hdr ++ renderBlocks blocks)),
@@ -81,6 +95,7 @@ def opDocLayout (c : Json) : R Json := do
     ("in_grammar", Json.bool inGrammar)]
 
 def docScanOps : List (String × (Json → R Json)) :=
-  [("doc.scan", opDocScan), ("doc.help", opDocHelp), ("doc.line", opDocLine), ("doc.layout", opDocLayout)]
+  [("doc.scan", opDocScan), ("doc.help", opDocHelp), ("doc.line", opDocLine), ("doc.layout", opDocLayout),
+   ("doc.inline", opDocInline)]
 
 end SpVerif.Drive
